@@ -76,6 +76,13 @@ func c10Cases(tier string) []Case {
 		c10Case("account-variable", nil, []string{send("%N", "{ $s @b }", "@d")}, map[string][2]string{"s": {"account", "acc:a"}}, "", ""),
 		c10Case("two-assets", []string{bal("m", "a", "EUR")}, []string{send("%N", "@a", "@d"), send("$m", "@a", "@e")}, nil, "", ""),
 	)
+	// names a store holds NEXT TO the ones asked for (other spellings of the same key or
+	// account) must not matter, whatever it volunteers and whatever order its maps are walked in
+	cases = append(cases,
+		c10Case("near-miss-keys", []string{`account $x = meta(@a, "fee")`}, []string{send("%N", "{ $x @b }", "@d")}, nil, "a.Fee=b,a.FEE=c", ""),
+		c10Case("near-miss-keys", []string{`account $x = meta(@a, "fee")`}, []string{send("%N", "{ $x @b }", "@d")}, nil, "a.fee=b,a.Fee=c,a.FEE=a,a.fee =c", ""),
+		c10Case("near-miss-keys", []string{`monetary $x = meta(@a, "Fee")`}, []string{send("%N", "@b", "@d"), send("$x", "@world", "@e")}, nil, "a.fee=USD 3,a.FEE=USD 4,A.Fee=USD 5", ""),
+	)
 	// store independence over GENERATED source shapes (the generator of the C01-C04 families):
 	// every two-leaf tree over @a, @b, @world with caps, bounded / unbounded overdraft and
 	// allotments, plus allotments whose items are @world / unbounded accounts / lists
